@@ -424,4 +424,44 @@ example (ops : List Op) (hops : ∀ op, op ∈ ops → exS.design.OpOK op) (n : 
   rw [exS_text]
   exact (text_run exS exS_check ops hops n).2 7 (by decide)
 
+/-! ### a second real text: ConcatenateMSBF/LSBF, Repeat (5 copies and 1 copy), SignExtend (widening and narrowing), SignedMul
+    (`C01.inline_concat`, `C01.inline_repeat`, `C01.inline_sext`, `C01.inline_smul` in Proofs/C01FlatKinds.lean) -/
+
+def exS2 : FlatSrc :=
+  { top := "Top", clk := "clk",
+    widths := [4, 3, 2, 1, 9, 5, 7, 3, 9, 1, 6, 4],
+    names := ["a", "b", "c", "i1", "r1", "r2", "r3", "r4", "r5", "r6", "r7", "r8"],
+    inputs := [0, 1, 2, 3], outputs := [4, 5, 6, 7, 8, 9, 10, 11], locals := [],
+    children := [.prim (.catm [0, 1, 2] 4), .prim (.rept 3 5), .prim (.sext 0 6), .prim (.sext 0 7), .prim (.catl [2, 1, 0] 8),
+      .prim (.rept 3 9), .prim (.smul 0 1 10), .prim (.catm [0] 11)],
+    order := [0, 1, 2, 3, 4, 5, 6, 7] }
+
+/-- parsed from the text the real generator wrote (`{a,b,c}`, `{i1,i1,i1,i1,i1}`, `{ { 3 { a[3] } }, a }`, `a`, `{c,b,a}`, `i1`,
+    `$signed(a) * $signed(b)`, `a`) -/
+def exText2 : V.Design :=
+  [{ name := "Top", params := [],
+     ports := [{ dir := .inp, isReg := false, width := 4, name := "a" }, { dir := .inp, isReg := false, width := 3, name := "b" },
+       { dir := .inp, isReg := false, width := 2, name := "c" }, { dir := .inp, isReg := false, width := 1, name := "i1" },
+       { dir := .out, isReg := false, width := 9, name := "r1" }, { dir := .out, isReg := false, width := 5, name := "r2" },
+       { dir := .out, isReg := false, width := 7, name := "r3" }, { dir := .out, isReg := false, width := 3, name := "r4" },
+       { dir := .out, isReg := false, width := 9, name := "r5" }, { dir := .out, isReg := false, width := 1, name := "r6" },
+       { dir := .out, isReg := false, width := 6, name := "r7" }, { dir := .out, isReg := false, width := 4, name := "r8" }],
+     items := [.assign (.lid "r1") (.cat (.id "a") (.cat (.id "b") (.id "c"))),
+       .assign (.lid "r2") (.cat (.id "i1") (.cat (.id "i1") (.cat (.id "i1") (.cat (.id "i1") (.id "i1"))))),
+       .assign (.lid "r3") (.cat (.cat1 (.rep 3 (.cat1 (.idx "a" (.num none true 3 true))))) (.id "a")),
+       .assign (.lid "r4") (.id "a"),
+       .assign (.lid "r5") (.cat (.id "c") (.cat (.id "b") (.id "a"))),
+       .assign (.lid "r6") (.id "i1"),
+       .assign (.lid "r7") (.bin "mul" (.sgn (.id "a")) (.sgn (.id "b"))),
+       .assign (.lid "r8") (.id "a")] }]
+
+theorem exS2_text : exText2 = exS2.emit := by decide
+theorem exS2_check : exS2.check = true := by decide
+
+example (ops : List Op) (hops : ∀ op, op ∈ ops → exS2.design.OpOK op) (n : Nat) :
+    ((exS2.zeroOps ++ (ops ++ [Op.clk (n + 1)])).foldl exS2.design.shipOp (mkSim exText2 "Top" "clk")).st.rd.val "r7" =
+      ⟨6, (runC exS2.design.netD.design exS2.design.netD.st0 exS2.design.netD.cons (ops ++ [Op.clk (n + 1)])).val 10, true⟩ := by
+  rw [exS2_text]
+  exact (text_run exS2 exS2_check ops hops n).2 10 (by decide)
+
 end C01Flat
